@@ -37,10 +37,15 @@ def histories(text, prefix, with_empty=False):
         yield [b"", text, b""]
 
 
-def case_line(prefix, calls):
+def case_line(prefix, calls, modes=None):
+    """modes: per call "" (Write), "S" (io.WriteString) or "R" (io.Copy from a reader without WriteTo; never for an
+    empty chunk, for which io.Copy makes no call at all)"""
     toks = ["indent", lib.hexs(prefix)]
-    for chunk, acc in calls:
-        toks += [lib.hexs(chunk), "ok" if acc is None else str(acc)]
+    for i, (chunk, acc) in enumerate(calls):
+        m = modes[i] if modes else ""
+        if m == "R" and not chunk:
+            m = ""
+        toks += [m + lib.hexs(chunk), "ok" if acc is None else str(acc)]
     return " ".join(toks)
 
 
@@ -70,6 +75,10 @@ def gen(tier, seed):
                 for chunks in histories(text, p, with_empty=(n <= 3)):
                     for calls in expand(p, chunks, shorts=(n <= 6)):
                         cases.append(case_line(p, calls))
+                        if n <= 4 and p in (b"> ", b"-\n"):
+                            # the same history handed over with io.WriteString and with io.Copy
+                            cases.append(case_line(p, calls, ["S"] * len(calls)))
+                            cases.append(case_line(p, calls, ["R"] * len(calls)))
     # random longer texts, richer alphabets
     for _ in range(2000 if tier == "quick" else 40000):
         n = rnd.randint(1, 40)
@@ -87,7 +96,7 @@ def gen(tier, seed):
                 _, at = render(p, at, c)
             joined, _ = render(p, at, chunks[i])
             calls = calls[:i] + [(chunks[i], rnd.randint(0, len(joined)))]
-        cases.append(case_line(p, calls))
+        cases.append(case_line(p, calls, [rnd.choice(["", "", "S", "R"]) for _ in calls]))
     # long single writes (several KiB, many lines), all-ok and stopping short anywhere in the output
     for k in range(12 if tier == "quick" else 120):
         n = rnd.choice([4095, 4096, 4097, 8191, 8192, 8193, 9000, 12289]) if k < 8 else rnd.randint(3000, 14000)
@@ -105,6 +114,17 @@ def gen(tier, seed):
         else:
             calls.append((text, rnd.randint(0, len(joined)) if k % 3 == 1 else rnd.randint(4000, len(joined))))
         cases.append(case_line(p, calls))
+    # very long lines (around 4096 bytes, the usual buffer size) handed over in every mode, from a line start and mid-line
+    for linelen in (4095, 4096, 4097, 9000):
+        for mode in ("", "S", "R"):
+            for pre in (b"", b"ab"):
+                text = b"x" * linelen + b"\n" + b"y" * 10 + b"\nz"
+                calls = ([(pre, None)] if pre else []) + [(text, None), (b"t\n", None)]
+                cases.append(case_line(b"--", calls, [mode] * len(calls)))
+                joined, _ = render(b"--", not pre, text)
+                for stop in (0, 1, 2, 3, linelen, linelen + 3, len(joined) - 1):
+                    c2 = ([(pre, None)] if pre else []) + [(text, stop)]
+                    cases.append(case_line(b"--", c2, [mode] * len(c2)))
     # one Write holding many lines (10-40), ending in a line break or not, as the last thing written or followed by more
     for nlines in list(range(10, 41)) if tier != "quick" else [10, 15, 16, 17, 18, 19, 31, 32, 33, 40]:
         for final_lf in (True, False):
@@ -206,7 +226,8 @@ def run(res, tier, seed, proof):
         evaluations=len(cases), distinct_nontrivial=nt,
         rule="exhaustive: texts over {a,LF} up to length %d x 5 prefixes (incl. empty and LF-containing) x all chunkings x "
              "every stop point of every call; plus random longer histories, single writes of 3-14 KiB, two stacked writers "
-             "(head / fresh upper writer / every chunking / tail, and random interleavings ending in a short write), and "
+             "(head / fresh upper writer / every chunking / tail, and random interleavings ending in a short write), chunks "
+             "handed over with Write, io.WriteString and io.Copy, lines of about 4096 bytes, odd prefixes, and "
              "String/Bytes on arbitrary bytes incl. invalid UTF-8; non-trivial = non-empty prefix, a line break in "
              "the text, and either >=2 Write calls or a short write" % (5 if tier == "quick" else 8),
         exhaustive=False, mismatches=mism,
